@@ -757,6 +757,7 @@ pub fn gen_c13<W: Write>(w: &mut W, tier: &str, seed: u64) {
 
 /// C20: layout independence.
 pub fn gen_c20<W: Write>(w: &mut W, tier: &str, seed: u64) {
+    gen_c20_boundary(w, tier, seed);
     let mut rng = Rng::new(seed ^ 0xC20);
     let n = if tier == "thorough" { 20_000 } else { 400 };
     for _ in 0..n {
@@ -786,6 +787,56 @@ pub fn gen_c20<W: Write>(w: &mut W, tier: &str, seed: u64) {
             continue;
         }
         emit(w, "C20", "direct", &[line], &[]);
+    }
+}
+
+/// C20: branches to the boundary line numbers (0 and 65529) resolve by number whatever constructs
+/// (FOR, IF, GOSUB, WHILE, DEF, ON — everything that allocates local labels) precede them in the layout.
+fn gen_c20_boundary<W: Write>(w: &mut W, tier: &str, seed: u64) {
+    let mut rng = Rng::new(seed ^ 0xC2B);
+    let fillers = ["REM", "FOR J=1 TO 2:NEXT J", "IF 0 THEN A=1 ELSE A=2", "GOSUB 900", "WHILE 0:WEND", "DEF FNQ(V)=V+1", "ON 0 GOTO 900", "Q=1:IF Q THEN Q=2", "ON 1 GOSUB 900,900"];
+    let n = if tier == "thorough" { 3000 } else { 150 };
+    for _ in 0..n {
+        for target in [0u32, 65529] {
+            // counter loop through the boundary line: K counts visits
+            let nf = rng.below(3);
+            let mut lines: Vec<String> = vec![];
+            let branch = match rng.below(6) {
+                0 => format!("GOTO {}", target),
+                1 => format!("IF 1 THEN {}", target),
+                2 => format!("ON 1 GOTO {}", target),
+                3 => format!("IF 0 THEN 950 ELSE {}", target),
+                4 => format!("IF K THEN GOTO {}", target),
+                _ => format!("ON 2 GOTO 950,{}", target),
+            };
+            if target == 0 {
+                lines.push("0 K=K+1:PRINT K;:IF K>=3 THEN 800".to_string());
+                for i in 0..nf {
+                    lines.push(format!("{} {}", 10 + i, rng.pick(&fillers)));
+                }
+                lines.push(format!("20 {}", branch));
+                lines.push("800 PRINT \"DONE\":END".to_string());
+                lines.push("900 RETURN".to_string());
+                lines.push("950 PRINT \"WRONG\":END".to_string());
+                let mut v = vec![hex(" 1  2  3 DONE\nREADY.\n")];
+                v.extend(lines);
+                emit(w, "C20", "expect", &v, &[]);
+            } else {
+                lines.push(format!("10 GOTO {}", if nf > 0 { 100 } else { 110 }));
+                lines.push("800 PRINT \"DONE\":END".to_string());
+                lines.push("900 RETURN".to_string());
+                lines.push("950 PRINT \"WRONG\":END".to_string());
+                for i in 0..nf {
+                    lines.push(format!("{} {}", 100 + i, rng.pick(&fillers)));
+                }
+                lines.push(format!("110 K=K+1:PRINT K;:IF K<3 THEN {}", branch));
+                lines.push("120 GOTO 800".to_string());
+                lines.push("65529 GOTO 110".to_string());
+                let mut v = vec![hex(" 1  2  3 DONE\nREADY.\n")];
+                v.extend(lines);
+                emit(w, "C20", "expect", &v, &[]);
+            }
+        }
     }
 }
 
@@ -931,7 +982,9 @@ pub fn gen_c10<W: Write>(w: &mut W, tier: &str, seed: u64) {
     let n = if tier == "thorough" { 20_000 } else { 400 };
     for _ in 0..n {
         let arity = 1 + rng.below(3);
-        let params: Vec<&str> = ["X", "Y", "Z"][..arity].to_vec();
+        // parameters of every type suffix; the program variables of the same names hold sentinels
+        let pool: &[&[&str]] = &[&["X", "Y", "Z"], &["X#", "Y!", "Z%"], &["X!", "Y%", "Z#"], &["X%", "Y#", "Z"], &["X", "Y#", "Z!"]];
+        let params: Vec<&str> = rng.pick(pool)[..arity].to_vec();
         // body over params and globals G, H
         let atoms: Vec<String> = params.iter().map(|s| s.to_string()).chain(["G".to_string(), "H".to_string(), "2".to_string(), "7".to_string()]).collect();
         let mut body = rng.pick(&atoms).clone();
@@ -942,20 +995,27 @@ pub fn gen_c10<W: Write>(w: &mut W, tier: &str, seed: u64) {
         let g = rng.below(9) as i32;
         let h = rng.below(9) as i32 - 4;
         // program A: function call; globals X,Y,Z hold sentinel values that must survive
+        // the program variables named like the parameters (same suffix) hold sentinels; so do the plain X, Y, Z
+        let sentinels: Vec<String> = params.iter().enumerate().map(|(i, p)| format!("{}={}", p, 100 * (i + 1))).collect();
+        let set = format!("G={}:H={}:X=11:Y=12:Z=13:{}", g, h, sentinels.join(":"));
+        let show = format!("40 PRINT X;Y;Z;{}", params.join(";"));
         let mut a = vec![
             format!("10 DEF FNF({})={}", params.join(","), body),
-            format!("20 G={}:H={}:X=100:Y=200:Z=300", g, h),
+            format!("20 {}", set),
             format!("30 PRINT FNF({})", args.join(",")),
-            "40 PRINT X;Y;Z".to_string(),
+            show.clone(),
         ];
-        // program B: the body inlined with temporaries
+        // program B: the body inlined with temporaries of the parameters' types
         let mut inl = body.clone();
+        let temp = |i: usize, p: &str| -> String { format!("T{}{}", i + 1, p.trim_start_matches(|c: char| c.is_ascii_alphabetic())) };
         for (i, p) in params.iter().enumerate() {
-            inl = inl.replace(p, &format!("T{}", i + 1));
+            // longest names first is not needed: parameter names are single letters plus an optional suffix,
+            // and a plain `X` never occurs in a body that uses `X#`
+            inl = inl.replace(p, &temp(i, p));
         }
-        let mut assigns: Vec<String> = args.iter().enumerate().map(|(i, v)| format!("T{}={}", i + 1, v)).collect();
-        assigns.push(format!("G={}:H={}:X=100:Y=200:Z=300", g, h));
-        let b = vec![format!("20 {}", assigns.join(":")), format!("30 PRINT {}", inl), "40 PRINT X;Y;Z".to_string()];
+        let mut assigns: Vec<String> = args.iter().enumerate().map(|(i, v)| format!("{}={}", temp(i, params[i]), v)).collect();
+        assigns.push(set.clone());
+        let b = vec![format!("20 {}", assigns.join(":")), format!("30 PRINT {}", inl), show];
         a.push("----".into());
         a.extend(b);
         emit(w, "C10", "same", &a, &[]);
@@ -1032,15 +1092,24 @@ pub fn gen_c19<W: Write>(w: &mut W, tier: &str, seed: u64) {
         if p.starts_with("REM") {
             continue;
         }
-        for f in forms {
-            for missing in [7u32, 64000, 999] {
-                let v: Vec<String> = vec!["10 REM".to_string(), format!("20 {}{}", p, f.replace("{}", &missing.to_string())), "30 PRINT \"RAN\"".to_string()];
+        // the faulty line sits in the middle, on the first (0) or on the last (65529) line number
+        for (la, lb, lc) in [(10u32, 20u32, 30u32), (0, 1, 2), (65527, 65528, 65529), (65500, 65529, 0)] {
+            for f in forms {
+                for missing in [7u32, 64000, 999] {
+                    let mut v: Vec<String> = vec![format!("{} REM", la), format!("{} {}{}", lb, p, f.replace("{}", &missing.to_string()))];
+                    if lc != 0 {
+                        v.push(format!("{} PRINT \"RAN\"", lc));
+                    }
+                    emit(w, "C19", "diag", &v, &[]);
+                }
+            }
+            for l in ["WEND", "WHILE 1", "WHILE 1:WHILE 2:WEND", "WEND:WHILE 1:WEND:WEND"] {
+                let mut v: Vec<String> = vec![format!("{} {}{}", lb, p, l)];
+                if lc != 0 {
+                    v.push(format!("{} PRINT \"RAN\"", lc));
+                }
                 emit(w, "C19", "diag", &v, &[]);
             }
-        }
-        for l in ["WEND", "WHILE 1", "WHILE 1:WHILE 2:WEND", "WEND:WHILE 1:WEND:WEND"] {
-            let v: Vec<String> = vec![format!("10 {}{}", p, l), "20 PRINT \"RAN\"".to_string()];
-            emit(w, "C19", "diag", &v, &[]);
         }
     }
     let n = if tier == "thorough" { 20_000 } else { 500 };
